@@ -77,17 +77,17 @@ type c19Finding struct {
 }
 
 type c19RoundResult struct {
-	Batch     int              `json:"batch"`
-	Round     int              `json:"round"`
-	Config    string           `json:"config"`
-	Counters  map[string]int64 `json:"counters"`
+	Batch     int                 `json:"batch"`
+	Round     int                 `json:"round"`
+	Config    string              `json:"config"`
+	Counters  map[string]int64    `json:"counters"`
 	Sets      map[string][]string `json:"sets"`
-	Pattern   string           `json:"pattern"` // overlap pattern signature of this round
-	Findings  []c19Finding     `json:"findings"`
-	Poisoned  bool             `json:"poisoned"`
-	Stalled   bool             `json:"stalled"`
-	Done      bool             `json:"done,omitempty"` // marker record: batch finished
-	SampleOps []string         `json:"sample_ops,omitempty"`
+	Pattern   string              `json:"pattern"` // overlap pattern signature of this round
+	Findings  []c19Finding        `json:"findings"`
+	Poisoned  bool                `json:"poisoned"`
+	Stalled   bool                `json:"stalled"`
+	Done      bool                `json:"done,omitempty"` // marker record: batch finished
+	SampleOps []string            `json:"sample_ops,omitempty"`
 }
 
 func (rr *c19RoundResult) count(k string, by int64) { rr.Counters[k] += by }
@@ -121,8 +121,11 @@ func (p *countingPolicy) TrackSetAndReturnEvictedKeys(key string, size int64) []
 	atomic.AddInt64(&p.evict, int64(len(ev)))
 	return ev
 }
-func (p *countingPolicy) TrackGet(key string)    { atomic.AddInt64(&p.gets, 1); p.inner.TrackGet(key) }
-func (p *countingPolicy) TrackRemove(key string) { atomic.AddInt64(&p.removes, 1); p.inner.TrackRemove(key) }
+func (p *countingPolicy) TrackGet(key string) { atomic.AddInt64(&p.gets, 1); p.inner.TrackGet(key) }
+func (p *countingPolicy) TrackRemove(key string) {
+	atomic.AddInt64(&p.removes, 1)
+	p.inner.TrackRemove(key)
+}
 
 func c19NewCache(spec c19Spec, dir string) (cachepkg.Cache, *countingPolicy, error) {
 	var p persistor.CachePersistor
@@ -671,7 +674,9 @@ func (s *innerRec) GetPart(ctx context.Context, tx database.Tx, id partstore.Par
 	return s.PartStore.GetPart(ctx, tx, id)
 }
 
-func (s *innerRec) Capabilities() partstore.Capabilities { return partstore.CapabilitiesOf(s.PartStore) }
+func (s *innerRec) Capabilities() partstore.Capabilities {
+	return partstore.CapabilitiesOf(s.PartStore)
+}
 
 // cacheRec records what the part store asks of the cache (boundary recorder).
 type cacheCall struct {
